@@ -1250,6 +1250,11 @@ impl Wallet {
             });
             for key in unspent_slips {
                 let slip = self.slips.get(key).unwrap();
+                if slip.block_id < last_valid_slips_in_block_id {
+                    // the outputs of that block are rebroadcast (or collected) by the very block
+                    // this stake is made for, so they cannot be spent in it as well
+                    continue;
+                }
 
                 collected_from_unspent_slips += slip.amount;
 
